@@ -2,7 +2,7 @@
 From Coq Require Import ZArith List String Ascii Bool Lia ZifyBool Sorted Permutation.
 From Coq Require Import DecimalString Decimal.
 From Coq Require DecimalN DecimalFacts.
-From Verif Require Import Base.Int64 C10.Model.
+From Verif Require Import Base.Int64 C10.Model C10.GenSem.
 From VerifGen Require Import GenIds.
 Import ListNotations.
 Open Scope Z_scope.
@@ -79,11 +79,12 @@ Theorem object_id_pack k r v :
 Proof.
   intros [Hr Hv]. unfold pack.
   destruct k; cbn [object_id norm_r norm_v is_element kcode];
-    unfold NodeID_ObjectID, NodeID_ElementID, NodeID_FeatureID,
-           WayID_ObjectID, WayID_ElementID, WayID_FeatureID,
-           RelationID_ObjectID, RelationID_ElementID, RelationID_FeatureID,
-           ChangesetID_ObjectID, NoteID_ObjectID, UserID_ObjectID, Bounds_ObjectID,
-           FeatureID_ElementID.
+    rewrite ?NodeID_ObjectID_sem, ?WayID_ObjectID_sem, ?RelationID_ObjectID_sem,
+      ?NodeID_ElementID_sem, ?WayID_ElementID_sem, ?RelationID_ElementID_sem,
+      ?NodeID_FeatureID_sem, ?WayID_FeatureID_sem, ?RelationID_FeatureID_sem,
+      ?ChangesetID_ObjectID_sem, ?NoteID_ObjectID_sem, ?UserID_ObjectID_sem, ?Bounds_ObjectID_sem,
+      ?FeatureID_ElementID_sem;
+    unfold ver_spec, ctor_spec.
   - reflexivity.
   - exact (pack_lor 16 r v ltac:(lia) Hr Hv).
   - exact (pack_lor 32 r v ltac:(lia) Hr Hv).
@@ -98,8 +99,12 @@ Theorem element_id_pack k r v :
 Proof.
   intros Hk [Hr Hv]. unfold pack.
   destruct k; try discriminate Hk; cbn [element_id kcode];
-    unfold NodeID_ElementID, NodeID_FeatureID, WayID_ElementID, WayID_FeatureID,
-           RelationID_ElementID, RelationID_FeatureID, FeatureID_ElementID.
+    rewrite ?NodeID_ObjectID_sem, ?WayID_ObjectID_sem, ?RelationID_ObjectID_sem,
+      ?NodeID_ElementID_sem, ?WayID_ElementID_sem, ?RelationID_ElementID_sem,
+      ?NodeID_FeatureID_sem, ?WayID_FeatureID_sem, ?RelationID_FeatureID_sem,
+      ?ChangesetID_ObjectID_sem, ?NoteID_ObjectID_sem, ?UserID_ObjectID_sem, ?Bounds_ObjectID_sem,
+      ?FeatureID_ElementID_sem;
+    unfold ver_spec, ctor_spec.
   - exact (pack_lor 16 r v ltac:(lia) Hr Hv).
   - exact (pack_lor 32 r v ltac:(lia) Hr Hv).
   - exact (pack_lor 48 r v ltac:(lia) Hr Hv).
@@ -110,7 +115,12 @@ Theorem feature_id_pack k r :
 Proof.
   intros Hk Hr. unfold pack.
   destruct k; try discriminate Hk; cbn [feature_id kcode];
-    unfold NodeID_FeatureID, WayID_FeatureID, RelationID_FeatureID.
+    rewrite ?NodeID_ObjectID_sem, ?WayID_ObjectID_sem, ?RelationID_ObjectID_sem,
+      ?NodeID_ElementID_sem, ?WayID_ElementID_sem, ?RelationID_ElementID_sem,
+      ?NodeID_FeatureID_sem, ?WayID_FeatureID_sem, ?RelationID_FeatureID_sem,
+      ?ChangesetID_ObjectID_sem, ?NoteID_ObjectID_sem, ?UserID_ObjectID_sem, ?Bounds_ObjectID_sem,
+      ?FeatureID_ElementID_sem;
+    unfold ver_spec, ctor_spec.
   - exact (pack_lor0 16 r ltac:(lia) Hr).
   - exact (pack_lor0 32 r ltac:(lia) Hr).
   - exact (pack_lor0 48 r ltac:(lia) Hr).
@@ -119,29 +129,46 @@ Qed.
 (* the object id of an element is its element id; the element id extends the feature id *)
 Theorem object_id_is_element_id k r v :
   is_element k = true -> object_id k r v = element_id k r v.
-Proof. destruct k; intros H; try discriminate H; reflexivity. Qed.
+Proof.
+  destruct k; intros H; try discriminate H; cbn [object_id element_id];
+    rewrite ?NodeID_ObjectID_sem, ?WayID_ObjectID_sem, ?RelationID_ObjectID_sem,
+      ?NodeID_ElementID_sem, ?WayID_ElementID_sem, ?RelationID_ElementID_sem,
+      ?NodeID_FeatureID_sem, ?WayID_FeatureID_sem, ?RelationID_FeatureID_sem,
+      ?ChangesetID_ObjectID_sem, ?NoteID_ObjectID_sem, ?UserID_ObjectID_sem, ?Bounds_ObjectID_sem,
+      ?FeatureID_ElementID_sem; reflexivity.
+Qed.
 
 Theorem element_id_of_feature k r v :
   is_element k = true -> element_id k r v = FeatureID_ElementID (feature_id k r) v.
-Proof. destruct k; intros H; try discriminate H; reflexivity. Qed.
+Proof.
+  destruct k; intros H; try discriminate H; cbn [element_id feature_id];
+    rewrite ?NodeID_ObjectID_sem, ?WayID_ObjectID_sem, ?RelationID_ObjectID_sem,
+      ?NodeID_ElementID_sem, ?WayID_ElementID_sem, ?RelationID_ElementID_sem,
+      ?NodeID_FeatureID_sem, ?WayID_FeatureID_sem, ?RelationID_FeatureID_sem,
+      ?ChangesetID_ObjectID_sem, ?NoteID_ObjectID_sem, ?UserID_ObjectID_sem, ?Bounds_ObjectID_sem,
+      ?FeatureID_ElementID_sem; reflexivity.
+Qed.
 
 (* ---------- decoders on arbitrary integers ---------- *)
 
 Lemma ref_formula x : ObjectID_Ref x = (x / two16) mod two40.
 Proof.
-  unfold ObjectID_Ref, c_refMask, c_versionBits, two16, two40.
+  rewrite ObjectID_Ref_sem. unfold ref_spec, c_refMask, c_versionBits, two16, two40.
   change 72057594037862400 with (Z.ones 40 * 2 ^ 16).
   rewrite land_ones_shl by lia. rewrite Z.shiftr_div_pow2 by lia.
   rewrite Z.div_mul by (change (2 ^ 16) with 65536; lia). reflexivity.
 Qed.
 
-Lemma element_ref_eq x : ElementID_Ref x = ObjectID_Ref x.  Proof. reflexivity. Qed.
-Lemma feature_ref_eq x : FeatureID_Ref x = ObjectID_Ref x.  Proof. reflexivity. Qed.
-Lemma element_version_eq x : ElementID_Version x = ObjectID_Version x.  Proof. reflexivity. Qed.
+Lemma element_ref_eq x : ElementID_Ref x = ObjectID_Ref x.
+Proof. transitivity (ref_spec x); [apply ElementID_Ref_sem|symmetry; apply ObjectID_Ref_sem]. Qed.
+Lemma feature_ref_eq x : FeatureID_Ref x = ObjectID_Ref x.
+Proof. transitivity (ref_spec x); [apply FeatureID_Ref_sem|symmetry; apply ObjectID_Ref_sem]. Qed.
+Lemma element_version_eq x : ElementID_Version x = ObjectID_Version x.
+Proof. transitivity (version_spec x); [apply ElementID_Version_sem|symmetry; apply ObjectID_Version_sem]. Qed.
 
 Lemma version_formula x : ObjectID_Version x = x mod two16.
 Proof.
-  unfold ObjectID_Version, c_versionMask, two16. change 65535 with (Z.ones 16).
+  rewrite ObjectID_Version_sem. unfold version_spec, c_versionMask, two16. change 65535 with (Z.ones 16).
   rewrite Z.land_ones by lia. reflexivity.
 Qed.
 
@@ -153,7 +180,7 @@ Qed.
 
 Lemma feature_formula x : ElementID_FeatureID x = ((x / two16) mod (two63 / two16)) * two16.
 Proof.
-  unfold ElementID_FeatureID, c_featureMask, two16, two63.
+  rewrite ElementID_FeatureID_sem. unfold feature_spec, c_featureMask, two16, two63.
   change 9223372036854710272 with (Z.ones 47 * 2 ^ 16).
   rewrite land_ones_shl by lia. reflexivity.
 Qed.
@@ -186,21 +213,21 @@ Qed.
 
 Lemma object_type_pack k r v : in_range r v -> ObjectID_Type (pack k r v) = kind_name k.
 Proof.
-  intros H. unfold ObjectID_Type. rewrite (type_bits_pack k r v H).
+  intros H. rewrite ObjectID_Type_sem. unfold object_type_spec. rewrite (type_bits_pack k r v H).
   destruct k; reflexivity.
 Qed.
 
 Lemma element_type_pack k r v :
   is_element k = true -> in_range r v -> ElementID_Type (pack k r v) = kind_name k.
 Proof.
-  intros Hk H. unfold ElementID_Type. rewrite (type_bits_pack k r v H).
+  intros Hk H. rewrite ElementID_Type_sem. unfold element_type_spec. rewrite (type_bits_pack k r v H).
   destruct k; try discriminate Hk; reflexivity.
 Qed.
 
 Lemma feature_type_pack k r v :
   is_element k = true -> in_range r v -> FeatureID_Type (pack k r v) = kind_name k.
 Proof.
-  intros Hk H. unfold FeatureID_Type. rewrite (type_bits_pack k r v H).
+  intros Hk H. rewrite FeatureID_Type_sem. unfold feature_type_spec. rewrite (type_bits_pack k r v H).
   destruct k; try discriminate Hk; reflexivity.
 Qed.
 
